@@ -6,6 +6,7 @@ package props
 
 import (
 	"context"
+	"errors"
 	"fmt"
 	"strings"
 	"testing"
@@ -149,7 +150,10 @@ func runC11(rt interface {
 		if rapid0(c.offset)%2 == 0 {
 			_ = w.selectAsPeer(p, 0x5e1ec7)
 		}
-		_ = p.SendRaw([]byte{0, 0})
+		// a drawn prefix (1..13 bytes) of a valid frame, then silence: T8 covers the length field, the
+		// boundary between length and header, and the header alike
+		fr := e37.DataFrame(0xffff, 1, 1, false, 0x1234, []byte{0x41, 0x02, 'h', 'i'}).Bytes()
+		_ = p.SendRaw(fr[:1+int(c.offset%13)])
 	case "write-timeout":
 		if err := w.selectAsPeer(p, 0x5e1ec7); err != nil {
 			fail("select: %v", err)
@@ -208,6 +212,15 @@ func runC11(rt interface {
 		if d := endAt.Sub(peers[len(peers)-1].Frames()[0].At); c.active && d != c11T6 {
 			fail("the unanswered Select.req was given up after %v, T6 is %v", d, c11T6)
 		}
+	}
+	// a redundant Open while the reconnect loop is backing off must be refused WITHOUT side effects:
+	// the recovery below (and its exact backoff schedule) must be unaffected
+	if c.offset%3 == 0 {
+		synctest.Wait()
+		if err := w.conn.Open(context.Background(), hsms.OpenBackground); !errors.Is(err, hsms.ErrAlreadyOpen) {
+			fail("Open on an open connection (reconnecting) returned %v, want ErrAlreadyOpen", err)
+		}
+		classes = append(classes, "c11:redundant-open")
 	}
 	// recovery (first let the dying generation finish its teardown: a dial that races it is accepted
 	// by the old generation's refuse loop and closed at once, exactly as on a real network)
